@@ -179,6 +179,16 @@ def handle (j : Json) : R Json := do
       | some o => judgeChange dt cand held hint o
       | none => ["change:missing"]
     return Json.mkObj [("wf", .bool dt.wfB), ("model", outcomeToJson (some m)), ("judge", jstrs verdict)]
+  | "history" =>
+    -- a history of driver updates / change requests on one parameter: the value held at the end
+    let dt ← dtypeOfJson (← fld j "dt")
+    let held0 ← pvalOfJson (← fld j "held0")
+    let evs ← (← fldArr j "events").mapM (fun e => do
+      match e.getObjVal? "u", e.getObjVal? "c" with
+      | .ok v, _ => return ParamEvent.update (← pvalOfJson v)
+      | _, .ok c => return ParamEvent.change (← jvalOfJson c)
+      | _, _ => throw "bad event")
+    return Json.mkObj [("wf", .bool dt.wfB), ("held", pvalToJson (holdRun dt held0 evs))]
   | "laws" =>
     let tuples ← (← fldArr j "tuples").mapM (fun t => do
       match ← arr t with
